@@ -496,9 +496,18 @@ class ExpectationWorld(_DeviceBase):
             n_re = len([1 for t, c in val.items() if t and abs(complex(c).real) > 1e-8])
             if k == "expval":
                 if cplx:
-                    # real pass then imaginary pass, each preceded by its own state-preparation call
-                    use_re = [m for m in rec if D.is_shot_histogram(m["f"], ns)]
-                    recount = None
+                    # real pass then imaginary pass, each possibly preceded by its own (sampled) state-preparation call
+                    seq_re, seq_im = seq[:n_re], seq[n_re:]
+                    extra = len(meas) - len(seq)
+                    if extra in (0, 2):
+                        pcall = extra // 2
+                        h_re = meas[pcall:pcall + len(seq_re)]
+                        h_im = meas[pcall + len(seq_re) + pcall:]
+                        cst = complex(const)
+                        rr = cst.real + sum(c * sum(f * M.parity(t, bs) for bs, f in u["f"].items()) for (t, c), u in zip(seq_re, h_re))
+                        ii = cst.imag + sum(c * sum(f * M.parity(t, bs) for bs, f in u["f"].items()) for (t, c), u in zip(seq_im, h_im))
+                        recount = complex(rr, ii)
+                        ctx.probe("C02.complex_two_pass_recount")
                 else:
                     recount = const + sum(c * sum(f * M.parity(t, bs) for bs, f in u["f"].items()) for (t, c), u in zip(seq, use))
             elif not cplx:
